@@ -284,7 +284,7 @@ Definition pi_f64 : Qc := Q2Qc (884279719003555 # 281474976710656).
 Definition pi_f32 : Qc := Q2Qc (13176795 # 4194304).
 Definition backend_pi (b : backend) : Qc :=
   match b with BFortran => if fixed_fortran_pi then pi_f64 else pi_f32 | _ => pi_f64 end.
-(* `E`: numpy.e / torch.e / jax.numpy.e (the Fortran module has no such constant: an equation with E does not compile there) *)
+(* `E`: numpy.e / torch.e / jax.numpy.e, and `double precision :: E = exp(1.0d0)` in the Fortran module since fix D111 (before, an equation with E did not compile there) *)
 Definition e_f64 : Qc := Q2Qc (6121026514868073 # 2251799813685248).
 Definition is_fortran (b : backend) : bool := match b with BFortran => true | _ => false end.
 (* guard of the finding: the model uses pi and the backend is Fortran *)
